@@ -34,6 +34,10 @@ pub enum Srv {
     Send(Vec<u8>, &'static str),
     /// send these bytes and end the stream right behind them (atomically)
     SendThenEnd(Vec<u8>, InEnd),
+    /// send these bytes; every write the client attempts from now on fails (the peer is gone)
+    SendThenFailWrites(Vec<u8>),
+    /// send a heartbeat every `ms` milliseconds and nothing else (a timeout must be configured)
+    HeartbeatsOnly(u64),
     Eof,
     Reset,
     /// say nothing (a timeout must be configured)
@@ -169,6 +173,13 @@ pub fn gen_script(r: &mut Rng, o: &Opts, props: &FieldTable) -> Script {
                 let end = if r.bool() { InEnd::Eof } else { InEnd::Err(ErrorKind::ConnectionReset) };
                 set(&mut s, 2, vec![Srv::SendThenEnd(conn_close_frame(code, &text), end)], &format!("ServerClosedConnection({},{:?})", code, text), "Close instead of OpenOk, then the socket ends")
             }
+            3 if r.bool() => {
+                // the broker refuses and is gone before our CloseOk can be written
+                let code = r.next() as u16;
+                let text = wire::rand_shortstr(r);
+                set(&mut s, 2, vec![Srv::SendThenFailWrites(conn_close_frame(code, &text))], &format!("ServerClosedConnection({},{:?})", code, text), "Close instead of OpenOk, then writes fail")
+            }
+            4 if o.timeout_ms.is_some() && r.bool() => set(&mut s, 2, vec![Srv::HeartbeatsOnly(o.timeout_ms.unwrap() / 5 + 1)], silence_expect, "heartbeats but never OpenOk"),
             2 => set(&mut s, 2, vec![Srv::Eof], "UnexpectedSocketClose", "EOF instead of OpenOk"),
             3 => set(&mut s, 2, vec![Srv::Reset], "IoErrorReadingSocket(ConnectionReset)", "reset instead of OpenOk"),
             4 if o.timeout_ms.is_some() => set(&mut s, 2, vec![Srv::Silence], silence_expect, "silence instead of OpenOk"),
@@ -200,7 +211,7 @@ pub fn gen_opts(r: &mut Rng) -> Opts {
             _ => wire::rand_shortstr(r),
         },
         information: if r.bool() { Some(wire::rand_shortstr(r)) } else { None },
-        timeout_ms: if r.chance(2, 3) { Some(*r.pick(&[150u64, 300, 500])) } else { None },
+        timeout_ms: if r.chance(2, 3) { Some(*r.pick(&[400u64, 700, 1000])) } else { None },
         channel_max: *r.pick(&[0u16, 10, 2047]),
         frame_max: *r.pick(&[0u32, 4096, 131072]),
         heartbeat: *r.pick(&[0u16, 60]),
@@ -293,6 +304,21 @@ pub fn run_script(o: &Opts, s: &Script, props: &FieldTable, seg: Segmenter, wfra
             match a {
                 Srv::Send(b, _) => h.inject(b.clone()),
                 Srv::SendThenEnd(b, end) => h.inject_then_end(b.clone(), Some(*end)),
+                Srv::SendThenFailWrites(b) => {
+                    h.with(|st| st.fail_write_from = Some((st.write_calls, ErrorKind::ConnectionReset)));
+                    h.inject(b.clone());
+                }
+                Srv::HeartbeatsOnly(ms) => {
+                    // the broker is alive (it keeps sending heartbeats) but never gets round to
+                    // answering; runs until the client gives up or a generous bound has passed
+                    silent = true;
+                    let until = Instant::now() + Duration::from_millis(o.timeout_ms.unwrap_or(0) * 4 + 3000);
+                    while Instant::now() < until && !task.is_finished() {
+                        h.inject(hb_frame());
+                        std::thread::sleep(Duration::from_millis(*ms));
+                    }
+                    break 'steps;
+                }
                 Srv::Eof => h.set_end(InEnd::Eof),
                 Srv::Reset => h.set_end(InEnd::Err(ErrorKind::ConnectionReset)),
                 Srv::Silence => {
@@ -325,6 +351,12 @@ pub fn run_script(o: &Opts, s: &Script, props: &FieldTable, seg: Segmenter, wfra
         if elapsed < Duration::from_millis(t) {
             res.violate("timeout_too_early", format!("connection_timeout {} ms fired after {:?}", t, elapsed));
         }
+        // a broker that only sends heartbeats is not answering: the attempt must not go on
+        // for as long as the heartbeats do (they went on for 4 x timeout + 3 s here)
+        let heartbeating = s.steps.iter().flatten().any(|a| matches!(a, Srv::HeartbeatsOnly(_)));
+        if heartbeating && elapsed > Duration::from_millis(t) + Duration::from_millis(2500) {
+            res.violate("handshake_hangs", format!("{}: connection_timeout {} ms, the attempt only ended after {:?} (when the heartbeats stopped)", s.label, t, elapsed));
+        }
     }
     // ---- what the client wrote
     if let Some(e) = h.peek(|st| st.parse_error.clone()) {
@@ -344,7 +376,7 @@ pub fn run_script(o: &Opts, s: &Script, props: &FieldTable, seg: Segmenter, wfra
         }
         e if e.starts_with("ServerClosedConnection") => {
             // (a CloseOk cannot be demanded from a client whose socket has just ended)
-            let socket_gone = s.steps.iter().flatten().any(|a| matches!(a, Srv::SendThenEnd(..)));
+            let socket_gone = s.steps.iter().flatten().any(|a| matches!(a, Srv::SendThenEnd(..) | Srv::SendThenFailWrites(..)));
             if !socket_gone && names.last().map(|s| s.as_str()) != Some("Connection.CloseOk") {
                 res.violate("close_not_answered", format!("{}: client wrote {:?}, the last frame must be Connection.CloseOk", s.label, names));
             }
